@@ -10,6 +10,9 @@ import (
 
 	"github.com/ethereum/go-ethereum/common"
 
+	abci "github.com/tendermint/tendermint/abci/types"
+
+	"github.com/cosmos/cosmos-sdk/simapp/helpers"
 	sdk "github.com/cosmos/cosmos-sdk/types"
 	authtypes "github.com/cosmos/cosmos-sdk/x/auth/types"
 	banktypes "github.com/cosmos/cosmos-sdk/x/bank/types"
@@ -41,7 +44,7 @@ func (ICS20Scenario) Generate(rng *rand.Rand, focus, tier string) kernel.Plan {
 	for i := 0; i < n; i++ {
 		switch x := rng.Intn(100); {
 		case x < 55:
-			add("transfer", rng.Int63n(6), rng.Int63n(6), rng.Int63n(4))
+			add("transfer", rng.Int63n(6), rng.Int63n(6), rng.Int63n(8))
 		case x < 70:
 			add("register", rng.Int63n(2))
 		case x < 80:
@@ -69,6 +72,7 @@ type icsWorld struct {
 	registered bool
 	pairOn     bool
 	destroyed  bool // the registered pair's contract no longer exists (self-destructed)
+	relayerGas uint64
 	aggOn      bool
 }
 
@@ -253,7 +257,35 @@ func (w *icsWorld) transfer(op kernel.Op) {
 	if acc, err := sdk.AccAddressFromBech32(receiver); err == nil {
 		who = acc
 	}
+	w.relayerGas = relayerGas[kernel.Mod(op.Arg(2), len(relayerGas))]
 	w.receive(packet, amt, kind, who)
+}
+
+// gas limits the relayer puts on its MsgRecvPacket: ample, and several that may run out in the middle
+// of the receive or of the conversion that follows it
+var relayerGas = []uint64{0, 0, 0, 120_000, 180_000, 240_000, 300_000, 400_000}
+
+// deliverWithGas is the testing chain's SendMsgs with an explicit gas limit; the block and sequence
+// bookkeeping is kept also when the transaction fails (the ante handler has run then).
+func (w *icsWorld) deliverWithGas(gas uint64, msgs ...sdk.Msg) error {
+	chain := w.b
+	w.coord.UpdateTimeForChain(chain)
+	w.fix()
+	tx, err := helpers.GenTx(chain.TxConfig, msgs, sdk.Coins{sdk.NewInt64Coin(sdk.DefaultBondDenom, 0)}, gas, chain.ChainID,
+		[]uint64{chain.SenderAccount.GetAccountNumber()}, []uint64{chain.SenderAccount.GetSequence()}, chain.SenderPrivKey)
+	if err != nil {
+		return err
+	}
+	bapp := chain.App.GetBaseApp()
+	bapp.BeginBlock(abci.RequestBeginBlock{Header: chain.GetContext().BlockHeader()})
+	_, _, derr := bapp.Deliver(chain.TxConfig.TxEncoder(), tx)
+	bapp.EndBlock(abci.RequestEndBlock{})
+	bapp.Commit()
+	chain.NextBlock()
+	_ = chain.SenderAccount.SetSequence(chain.SenderAccount.GetSequence() + 1)
+	w.coord.IncrementTime()
+	w.fix()
+	return derr
 }
 
 // back: B returns vouchers to A (burn on B), so that a later transfer exercises "returning native coins" on A.
@@ -301,8 +333,31 @@ func (w *icsWorld) receive(packet channeltypes.Packet, amt sdk.Int, kind string,
 	proof, proofHeight := w.path.EndpointA.QueryProof([]byte(packetKey))
 	recvMsg := channeltypes.NewMsgRecvPacket(packet, proof, proofHeight, w.userB.String())
 	w.fix()
-	_, err := w.b.SendMsgs(recvMsg)
-	if err != nil {
+	if gas := w.relayerGas; gas > 0 {
+		// the relayer is stingy with gas: either the transaction fits, or it fails and leaves nothing
+		w.rec.Fault("exec.relayer_gas_limit")
+		if err := w.deliverWithGas(gas, recvMsg); err != nil {
+			w.rec.Probe("ics20.recv_out_of_gas")
+			midV, midM, midT := w.balances(who)
+			_, acked := w.bApp.IBCKeeper.ChannelKeeper.GetPacketAcknowledgement(w.b.GetContext(), packet.GetDestPort(), packet.GetDestChannel(), packet.GetSequence())
+			_, received := w.bApp.IBCKeeper.ChannelKeeper.GetPacketReceipt(w.b.GetContext(), packet.GetDestPort(), packet.GetDestChannel(), packet.GetSequence())
+			if !midV.Equal(preV) || !midM.Equal(preM) || midT.Cmp(preT) != 0 || acked || received {
+				w.rec.Violate("C16", "failed_receive_left_effects", "out_of_gas", "a MsgRecvPacket that failed (%v) left effects: receipt=%v ack=%v", err, received, acked)
+			}
+			// the packet is still pending: relay it again with enough gas
+			if err := w.path.EndpointB.UpdateClient(); err != nil {
+				w.rec.HarnessFail("update client: " + err.Error())
+				return
+			}
+			proof, proofHeight = w.path.EndpointA.QueryProof([]byte(packetKey))
+			recvMsg = channeltypes.NewMsgRecvPacket(packet, proof, proofHeight, w.userB.String())
+			w.fix()
+			if _, err := w.b.SendMsgs(recvMsg); err != nil {
+				w.rec.HarnessFail("MsgRecvPacket rejected after an out-of-gas attempt: " + err.Error())
+				return
+			}
+		}
+	} else if _, err := w.b.SendMsgs(recvMsg); err != nil {
 		w.rec.HarnessFail("MsgRecvPacket rejected: " + err.Error())
 		return
 	}
